@@ -64,6 +64,35 @@ def random_ranking_buckets(rng, ordered):
     return r
 
 
+def cyclic_dataset(rng, nmax=5):
+    """preference cycles: rotations of a permutation (Condorcet cycle), optionally with a fully tied ranking, a partial
+    ranking or a duplicate: one strongly connected component of >= 3 elements whose optimum ties part of the cycle
+    for tie costs in a narrow band"""
+    n = rng.randint(3, nmax)
+    base = list(range(1, n + 1))
+    rng.shuffle(base)
+    rots = [base[i:] + base[:i] for i in range(n)]
+    D = [[[e] for e in rot] for rot in rng.sample(rots, rng.randint(2, n))]
+    if rng.random() < 0.5:
+        D.append([base[:]])
+    if rng.random() < 0.4:
+        D.append(gen.random_ranking(rng, base, 0.6, 0.5))
+    if rng.random() < 0.3:
+        D.append([list(b) for b in D[0]])
+    rng.shuffle(D)
+    return D
+
+
+def p_scheme(rng):
+    p = rng.choice([0.375, 0.375, 0.5, 0.5, 0.75, 1.0, 0.25])
+    fam = rng.choice(["unifying", "pseudo", "induced"])
+    if fam == "unifying":
+        return [[0.0, 1.0, p, 0.0, 1.0, p], [p, p, 0.0, p, p, 0.0]]
+    if fam == "pseudo":
+        return [[0.0, 1.0, p, 0.0, 1.0, 0.0], [p, p, 0.0, p, p, 0.0]]
+    return [[0.0, 1.0, p, 0.0, 0.0, 0.0], [p, p, 0.0, 0.0, 0.0, 0.0]]
+
+
 def opt_scheme(rng):
     r = rng.random()
     if r < 0.25:
